@@ -463,7 +463,8 @@ func checkOnlyStopReturns(p *core.Prog, h *core.RuleH, fn *ssa.Function) {
 }
 
 // listerListsEveryMark: shared by C44.R8 and C09.R8. In the loop body of listGarbageObjects (range-over-func: a
-// closure) every 'continue' (return true) has appended the mark's id to the result; only 'break' (return false) skips.
+// closure) every 'continue' (return true) has appended the mark's id to the result, or isNonPhysicalEntry answered true for it (Delete refuses
+// such an entry, it is removed with its last part); only 'break' (return false) skips.
 func listerListsEveryMark(p *core.Prog, r *core.Report, h *core.RuleH) {
 	var body *ssa.Function
 	if lf := p.Func(mb + "listGarbageObjects"); lf != nil {
@@ -489,7 +490,12 @@ func listerListsEveryMark(p *core.Prog, r *core.Report, h *core.RuleH) {
 		c, ok := st.Val.(*ssa.Call)
 		return ok && core.CalleeName(c) == "builtin.append" && fv.Name() == "objs"
 	}}
-	core.CheckEffectsFn(p, h, body, core.EffectRule{Min: 1, Guards: []core.Guard{listed}, Effect: func(_ *core.Prog, in ssa.Instruction) (string, bool) {
+	// an entry that is indexed without being stored itself may be left out: Delete refuses it anyway, it goes with its last part
+	nonPhy := core.G("entry-is-non-physical", core.IsTrue, mb+"isNonPhysicalEntry")
+	core.CheckEffectsFn(p, h, body, core.EffectRule{Min: 1, Guards: []core.Guard{listed, nonPhy},
+		Derived: []core.Derived{{Name: "mark-listed-or-not-removable-itself", Alts: [][]string{{"mark-listed"}, {"entry-is-non-physical"}}}},
+		Need:    func(string) []string { return []string{"mark-listed-or-not-removable-itself"} },
+		Effect: func(_ *core.Prog, in ssa.Instruction) (string, bool) {
 		ret, ok := in.(*ssa.Return)
 		if !ok || len(ret.Results) != 1 {
 			return "", false
